@@ -36,8 +36,12 @@ PLACEMENTS = [
     ("sep", 2e-2),       # 13
     ("sepL", 1.5),       # 14 gap = 1.5 * 1e-3 * Lhint  (just outside the grazing band of C02)
     ("sepL", 30.0),      # 15
+    # ---- extended placements (not used by C01/C02/C09: overlap is not certified by construction)
+    ("pen", 0.2),        # 16 supporting planes along u interpenetrate by 0.2*min(size)
+    ("pen", 0.02),       # 17
+    ("pen", 0.5),        # 18
 ]
-N_PL = len(PLACEMENTS)
+N_PL = 16
 
 COORDS = ["sa", "sb", "oa", "ob", "fa", "ma", "mb", "pl", "u"]
 
@@ -97,6 +101,12 @@ def build(desc, want_impl=True):
             cB = pA + w - pB0
             truth.update(overlap=True, common=pA + w, depthA=dA - float(np.linalg.norm(w)), depthB=dB)
             truth["depth"] = min(truth["depthA"], truth["depthB"])
+        elif kind == "pen":
+            p = par * min(rA.size(), rB0.size())
+            a_star = rA.argsup(u)
+            b_star0 = rB0.argsup(-u)
+            cB = a_star - p * u - b_star0
+            truth.update(overlap=None, pen=p, u=u)
         elif kind == "deep":
             pB0, dB = rB0.anchor()
             a_star = rA.argsup(u)
@@ -109,6 +119,20 @@ def build(desc, want_impl=True):
             float(np.linalg.norm(rA.centre() - rB.centre())))
     truth["L"] = L
     return {"A": A, "B": B, "rA": rA, "rB": rB, "truth": truth}
+
+
+def enumerate_custom(ta, tb, alph, bound):
+    """alph: ordered dict coordinate -> list of values (first = default); all assignments with <= bound deviations."""
+    names = list(alph)
+    out = []
+    for tup in sc.deviation_product([len(alph[n]) for n in names], bound):
+        d = {"ta": ta, "tb": tb}
+        for n, i in zip(names, tup):
+            d[n] = alph[n][i]
+        for n in COORDS:
+            d.setdefault(n, 0)
+        out.append(d)
+    return out
 
 
 def pair_class(desc):
